@@ -141,7 +141,12 @@ def prepare(log):
         st.setdefault("harness", {})[name] = {"rc": rc, "out": out[-4000:]}
         log(f"build {name} rc={rc} {dt:.1f}s")
     # model driver
-    targets = ["edmodel"] + (["ssadiag"] if os.path.exists(os.path.join(LEAN, "SsaDiag.lean")) else [])
+    targets = ["edmodel"] + [t for t, f in (("ssadiag", "SsaDiag.lean"), ("ssarun", "SsaRun.lean")) if os.path.exists(os.path.join(LEAN, f))]
+    for t in ("ssarun", "ssadiag"):      # never run a stale binary against a new tree
+        try:
+            os.remove(os.path.join(LEAN, ".lake", "build", "bin", t))
+        except OSError:
+            pass
     rc, out, dt = sh(["lake", "build"] + targets, cwd=LEAN, timeout=2400)
     st["model"] = {"rc": rc, "out": out[-6000:]}
     log(f"lake build edmodel rc={rc} {dt:.1f}s")
